@@ -27,6 +27,10 @@
 (***************************************************************************)
 EXTENDS Naturals, Sequences
 
+CONSTANT DefectivePairs   \* FALSE: RFC 8259.  TRUE: surrogate pairs are combined as arrow-json's tape decoder does
+                          \* (known finding C17-json-surrogate-pair-or); used by Trace_TextFormats only to
+                          \* identify that finding precisely, never as the oracle
+
 Node(k, s, kids, keys) == [k |-> k, s |-> s, kids |-> kids, keys |-> keys]
 Lit(k) == Node(k, <<>>, <<>>, <<>>)
 Num(lexeme) == Node("num", lexeme, <<>>, <<>>)
@@ -81,6 +85,13 @@ Hex4(t, i) ==      \* value of the four hex digits at i..i+3, or 65536
 
 IsHigh(u) == u >= 55296 /\ u <= 56319       \* D800..DBFF
 IsLow(u) == u >= 56320 /\ u <= 57343        \* DC00..DFFF
+(* the code point a surrogate pair denotes: 0x10000 + (hi - 0xD800) * 0x400 + (lo - 0xDC00).          *)
+(* The defective form is  ((hi - 0xD800) << 10) | ((lo - 0xDC00) + 0x10000)  (tape.rs:783): the `|`   *)
+(* drops the 0x10000 whenever bit 6 of hi - 0xD800 is set, i.e. for every character of planes 2, 4, .. *)
+PairValue(hi, lo) ==
+  IF DefectivePairs /\ ((hi - 55296) \div 64) % 2 = 1
+  THEN (hi - 55296) * 1024 + (lo - 56320)
+  ELSE 65536 + (hi - 55296) * 1024 + (lo - 56320)
 
 SimpleEscape(c) ==      \* the character denoted by \c, or 0
   CASE c = QUOTE -> QUOTE [] c = BSL -> BSL [] c = SLASH -> SLASH
@@ -101,7 +112,7 @@ Chars(t, i, acc) ==
            ELSE IF IsHigh(u) THEN
                   LET lo == IF At(t, i + 6) = BSL /\ At(t, i + 7) = 117 THEN Hex4(t, i + 8) ELSE 65536 IN
                   IF lo # 65536 /\ IsLow(lo)
-                  THEN Chars(t, i + 12, Append(acc, 65536 + (u - 55296) * 1024 + (lo - 56320)))
+                  THEN Chars(t, i + 12, Append(acc, PairValue(u, lo)))
                   ELSE [ok |-> FALSE, s |-> acc, next |-> i]                       \* unpaired surrogate
            ELSE IF IsLow(u) THEN [ok |-> FALSE, s |-> acc, next |-> i]             \* unpaired surrogate
            ELSE Chars(t, i + 6, Append(acc, u))
